@@ -359,6 +359,13 @@ func (m *Manager) newStream(ctx context.Context, sid uint64, kind, rpc string) (
 		// terminate it here so that the reader, which may already be
 		// delivering a packet to it, is not left waiting for a receiver.
 		stream.Cancel(m.sigs.term.Err())
+
+		// a stream signals on the shared channel once when it finishes, and
+		// that signal is meant for whoever manages the stream. nobody manages
+		// this one, so take it back: left in the channel it would fill the
+		// one slot, and the previous stream, finishing at the same moment,
+		// would block on its own signal while holding its mutex.
+		<-m.sfin
 		return nil, m.sigs.term.Err()
 	}
 }
